@@ -33,6 +33,22 @@ impl Duration {
     pub fn from_secs(s: u64) -> (r: Duration) ensures r.nanos == s as nat * 1_000_000_000
     { Duration { nanos: s as u128 * 1_000_000_000 } }
     pub fn is_zero(&self) -> (r: bool) ensures r == (self.nanos == 0) { self.nanos == 0 }
+    /// u64::MAX seconds + 999_999_999 ns
+    pub const MAX: Duration = Duration { nanos: 18_446_744_073_709_551_615_999_999_999 };
+    pub fn max(self, other: Duration) -> (r: Duration) ensures r == (if other.nanos > self.nanos { other } else { self })
+    { if other.nanos > self.nanos { other } else { self } }
+    pub fn min(self, other: Duration) -> (r: Duration) ensures r == (if other.nanos < self.nanos { other } else { self })
+    { if other.nanos < self.nanos { other } else { self } }
+    pub fn checked_sub(self, rhs: Duration) -> (r: Option<Duration>)
+        ensures self.nanos >= rhs.nanos ==> r == Some(Duration { nanos: (self.nanos - rhs.nanos) as u128 }), self.nanos < rhs.nanos ==> r is None
+    { if self.nanos >= rhs.nanos { Some(Duration { nanos: self.nanos - rhs.nanos }) } else { None } }
+    pub fn checked_add(self, rhs: Duration) -> (r: Option<Duration>)
+        ensures self.nanos + rhs.nanos <= Duration::MAX.nanos ==> r == Some(Duration { nanos: (self.nanos + rhs.nanos) as u128 }), self.nanos + rhs.nanos > Duration::MAX.nanos ==> r is None
+    { match self.nanos.checked_add(rhs.nanos) { Some(n) => if n <= 18_446_744_073_709_551_615_999_999_999 { Some(Duration { nanos: n }) } else { None }, None => None } }
+    pub fn as_micros(&self) -> (r: u128) ensures r == self.nanos / 1_000 { self.nanos / 1_000 }
+    pub fn as_nanos(&self) -> (r: u128) ensures r == self.nanos { self.nanos }
+    pub fn from_micros(us: u64) -> (r: Duration) ensures r.nanos == us as nat * 1_000 { Duration { nanos: us as u128 * 1_000 } }
+    pub fn from_nanos(ns: u64) -> (r: Duration) ensures r.nanos == ns as nat { Duration { nanos: ns as u128 } }
     pub fn as_millis(&self) -> (r: u128) ensures r == self.nanos / 1_000_000
     { self.nanos / 1_000_000 }
     pub fn subsec_millis(&self) -> (r: u32) ensures r == (self.nanos % 1_000_000_000) / 1_000_000
@@ -69,6 +85,13 @@ impl Instant {
     pub fn saturating_duration_since(&self, earlier: Instant) -> (r: Duration)
         ensures r.nanos == (if self.t >= earlier.t { self.t - earlier.t } else { 0 })
     { self.duration_since(earlier) }
+    /// ASSUMED: the platform clock's origin is the shim's 0 (an instant before it is not representable)
+    pub fn checked_sub(&self, d: Duration) -> (r: Option<Instant>)
+        ensures self.t >= d.nanos ==> r == Some(Instant { t: (self.t - d.nanos) as u128 }), self.t < d.nanos ==> r is None
+    { if self.t >= d.nanos { Some(Instant { t: self.t - d.nanos }) } else { None } }
+    pub fn checked_duration_since(&self, earlier: Instant) -> (r: Option<Duration>)
+        ensures self.t >= earlier.t ==> r == Some(Duration { nanos: (self.t - earlier.t) as u128 }), self.t < earlier.t ==> r is None
+    { if self.t >= earlier.t { Some(Duration { nanos: self.t - earlier.t }) } else { None } }
     pub fn checked_add(&self, d: Duration) -> (r: Option<Instant>)
         ensures self.t + d.nanos <= u128::MAX ==> r == Some(Instant { t: (self.t + d.nanos) as u128 }),
                 self.t + d.nanos > u128::MAX ==> r is None
